@@ -43,6 +43,7 @@ type Contract struct {
 	Props    []string
 	Opaque   []string // spec functions to keep uninterpreted here
 	Unroll   map[string]bool
+	Peel     map[string]bool // loops whose first iteration is executed before the invariant applies
 	Notes    []string
 	Where    string
 	Text     []string // raw lines (hash for the ledger)
@@ -113,6 +114,7 @@ type Lemma struct {
 }
 
 type Universe struct {
+	AlsoTags map[string]string // package path -> extra build tag for a second verification pass
 	Fset      *token.FileSet
 	Pkgs      map[string]*packages.Package // by path, including deps
 	Root      []*packages.Package
@@ -366,6 +368,14 @@ func (u *Universe) parseContractFile(path, pkgPath string, deps bool) error {
 			}
 			u.SameAs[pkgPath] = rest
 			continue
+		case "alsotags":
+			// alsotags T: the functions of this package are verified a second time with build tag T
+			// (files selected by the other side of a build constraint, e.g. the portable fallback)
+			if u.AlsoTags == nil {
+				u.AlsoTags = map[string]string{}
+			}
+			u.AlsoTags[pkgPath] = strings.TrimSpace(rest)
+			continue
 		case "props":
 			if curC == nil && curL == nil {
 				defaultProps = strings.Fields(rest)
@@ -541,6 +551,12 @@ func (u *Universe) parseContractFile(path, pkgPath string, deps bool) error {
 				s := body
 				pend = append(pend, pending{kind: "loopmod", loop: id, text: &s, line: where})
 				lastClause = pend[len(pend)-1].text
+			case "peel":
+				if curC.Peel == nil {
+					curC.Peel = map[string]bool{}
+				}
+				curC.Peel[id] = true
+				lastClause = nil
 			case "unroll":
 				curC.Unroll[id] = true
 				lastClause = nil
